@@ -19,6 +19,8 @@ Model runs also start with a zero-length call, hand over logs that already hold 
 precede its first row), carry a user field that fails now and then (every row must have as many columns as the header
 announces), and include a dilute box that runs empty (frames of zero atoms are frames too).
 Every third model run hands its Logger object, pointed at another file, to a second simulation whose log is judged too.
+Continuation shards write the three files by path, build a continuation from the restart file on the same paths and
+judge the files right after its construction and after each of its first steps (before its first restart write).
 """
 from __future__ import annotations
 
@@ -44,7 +46,7 @@ ASSUMPTIONS = [
     "durability model B: bytes written since the last flush / seek / truncate may be lost entirely or partially (any prefix)",
     "a restart document 'describes the latest state' if it decodes with ASE's JSON codec and carries the current step counter and atom count",
 ]
-REQUIRED = {"loggers_handed_to_a_second_simulation": 8, "logs_with_earlier_content": 4, "observer_calls_checked": 150, "cut_points": 400, "real_kills": 20, "restart_docs_shrunk": 3, "restart_docs_grown": 3, "frames_parsed": 100, "log_rows_checked": 50}
+REQUIRED = {"continuations_on_the_same_paths": 8, "continuation_points_checked": 30, "loggers_handed_to_a_second_simulation": 8, "logs_with_earlier_content": 4, "observer_calls_checked": 150, "cut_points": 400, "real_kills": 20, "restart_docs_shrunk": 3, "restart_docs_grown": 3, "frames_parsed": 100, "log_rows_checked": 50}
 SHARD_TIMEOUT = {"quick": 900, "thorough": 3000}
 
 
@@ -71,6 +73,10 @@ def plan(tier, seed):
                 # are told both modes, since they may (and a changed tree did) behave differently per declared mode
                 for fmode in ("a", "w"):
                     specs.append({"name": f"model-{d}-L{li}-{fmode}-s{s}", "mode": "model", "driver": d, "li": li, "fmode": fmode, "steps": 10 if not big else 40, "seed": seed, "s": s})
+    for d in workloads():
+        if not d.endswith("ForceBias"):  # (force-bias drivers cannot write a restart file: listed finding of C07)
+            for li in (1, 2):
+                specs.append({"name": f"continue-{d}-L{li}", "mode": "continue", "driver": d, "li": li, "seed": seed})
     for d in ("Canonical", "GrandCanonical", "ForceBias"):
         for fmode in ("a", "w"):
             specs.append({"name": f"kill-{d}-{fmode}", "mode": "kill", "driver": d, "fmode": fmode, "steps": 6, "kills": 8 if not big else 150, "seed": seed})
@@ -397,6 +403,75 @@ def run_model(spec, rec):
         judge_run(rec, list(OPLOG), {**wit0, "stage": "second simulation with the first one's Logger object, file re-assigned"}, spec["driver"])
 
 
+# ----------------------------------------------------------------------------- continuation on the same paths
+def run_continue(spec, rec):
+    """A run writes log, trajectory and restart file by path; a continuation is then built from the restart file ON THE SAME
+    PATHS with the default (append) mode.  Crash point 0 of the continuation - after its construction, before its first
+    file operation of an observer call - and every point up to its first restart write: all earlier log lines and frames
+    are still there and the restart file still loads to a state that was saved."""
+    from ase.io.jsonio import read_json
+
+    from quansino.registry import get_class
+    from qv import sims
+
+    w = dict(workloads()[spec["driver"]])
+    w["seed"] = derive_seed("c16c", spec["seed"], spec["driver"], spec["li"])
+    base = os.path.join(os.getcwd(), "continue-" + spec["name"])
+    os.makedirs(base, exist_ok=True)
+    paths = {k: os.path.join(base, f"run.{ext}") for k, ext in (("log", "log"), ("traj", "xyz"), ("rst", "json"))}
+    for p_ in paths.values():
+        if os.path.exists(p_):
+            os.remove(p_)
+
+    def slurp(path):
+        with open(path) as fh:
+            return fh.read()
+
+    wit0 = {"driver": spec["driver"], "logging_interval_of_the_first_run": spec["li"], "files": "by path, default mode"}
+    try:
+        mc, _ = sims.build(w, logfile=paths["log"], trajectory=paths["traj"], restart_file=paths["rst"], logging_interval=spec["li"])
+        mc.run(6)
+        mc.close()
+    except Exception as ex:  # noqa: BLE001
+        rec.viol(f"C16/run-raised/{type(ex).__name__}/files-by-path", f"a run with files given by path raised {type(ex).__name__}: {ex}"[:300], wit0)
+        return
+    before = {k: slurp(p_) for k, p_ in paths.items()}
+    saved = read_json(paths["rst"])
+    saved_step = int(saved.get("kwargs", {}).get("step_count", saved.get("step_count", -1))) if isinstance(saved, dict) else -1
+    rec.evaluations += 1
+
+    def judge(stage):
+        rec.count("continuation_points_checked")
+        now = {k: slurp(p_) for k, p_ in paths.items()}
+        wit = {**wit0, "stage": stage}
+        if not now["log"].startswith(before["log"]):
+            rec.viol("C16/log/earlier-lines-lost/continuation-on-the-same-path", f"{stage}: the log no longer begins with the {len(before['log'].splitlines())} lines the first run had completed", wit)
+        if not now["traj"].startswith(before["traj"]):
+            rec.viol("C16/traj/earlier-bytes-changed/continuation-on-the-same-path", f"{stage}: the trajectory no longer begins with the frames the first run had completed", wit)
+        try:
+            doc = read_json(paths["rst"])
+            ok = isinstance(doc, dict) and "name" in doc
+        except Exception:  # noqa: BLE001
+            ok = False
+        if not ok:
+            rec.viol("C16/rst/unloadable/continuation-on-the-same-path", f"{stage}: the restart file ({len(now['rst'])} bytes) does not load although the first run had completed a document of {len(before['rst'])} bytes", wit)
+
+    try:
+        cls = get_class(saved["name"])
+        cont = cls.from_dict(saved, logfile=paths["log"], trajectory=paths["traj"], restart_file=paths["rst"], logging_interval=50)
+        cont.atoms.calc = sims.build_calc(w.get("calc", {}), sims.build_atoms(w.get("atoms", {}))[0])
+        judge("right after the continuation was constructed")
+        for k_ in range(3):
+            cont.run(1)
+            judge(f"after {k_ + 1} step(s) of the continuation, before its first restart write")
+        cont.close()
+    except Exception as ex:  # noqa: BLE001
+        rec.viol(f"C16/run-raised/{type(ex).__name__}/continuation-on-the-same-path", f"continuing on the same paths raised {type(ex).__name__}: {ex}"[:300], wit0)
+        return
+    rec.count("continuations_on_the_same_paths")
+    rec.sample({**wit0, "first_run_saved_step": saved_step, "bytes_before": {k: len(v) for k, v in before.items()}}, cap=1)
+
+
 # ----------------------------------------------------------------------------- real kills
 CHILD = r"""
 import os, sys, json, warnings
@@ -568,5 +643,5 @@ def run(spec):
 
     env.import_quansino()
     rec = Rec(spec["name"])
-    {"model": run_model, "kill": run_kill}[spec["mode"]](spec, rec)
+    {"model": run_model, "kill": run_kill, "continue": run_continue}[spec["mode"]](spec, rec)
     return rec.out()
